@@ -235,7 +235,31 @@ def x_manifest(report):
     _has(src, "if not r.fieldnames:", "load_from_csv")
     _has(src, "for k in cls.required_keys: if k not in r.fieldnames: raise ValueError", "load_from_csv")
     _has(src, "for k in introws: row[k] = int(row[k])", "load_from_csv")
-    _has(src, "for k in boolrows: row[k] = bool(ast.literal_eval(str(row[k])))", "load_from_csv")
+    # two variants of the with_abundance conversion: bare literal_eval (before the repair of C20.2), or wrapped so that
+    # the listed literal_eval failure classes come out as ValueError
+    fnode = None
+    for n in ast.walk(fn):
+        if isinstance(n, ast.For) and ast.unparse(n.iter) == "boolrows":
+            fnode = n
+    if fnode is None or len(fnode.body) != 1:
+        raise Unrecognised("load_from_csv", "boolrows loop not found / has more than one statement")
+    body = fnode.body[0]
+    bare = "row[k] = bool(ast.literal_eval(str(row[k])))"
+    lit_caught = []
+    if ast.unparse(body) == bare:
+        pass
+    elif (isinstance(body, ast.Try) and len(body.body) == 1 and ast.unparse(body.body[0]) == bare and len(body.handlers) == 1
+          and not body.orelse and not body.finalbody):
+        h = body.handlers[0]
+        lit_caught = _exc_names(h.type)
+        if len(h.body) != 1 or not isinstance(h.body[0], ast.Raise) or not isinstance(h.body[0].exc, ast.Call) \
+                or ast.unparse(h.body[0].exc.func) != "ValueError":
+            raise Unrecognised("load_from_csv", "the handler around literal_eval does not simply raise ValueError")
+        known = {"SyntaxError", "MemoryError", "RecursionError", "TypeError", "ValueError"}
+        if not set(lit_caught) <= known:
+            raise Unrecognised("load_from_csv", f"handler around literal_eval catches unmodelled classes: {lit_caught}")
+    else:
+        raise Unrecognised("load_from_csv", "with_abundance conversion is neither the bare nor the wrapped literal_eval shape: " + ast.unparse(body)[:120])
     introws = boolrows = None
     for n in ast.walk(fn):
         if isinstance(n, ast.Assign) and isinstance(n.targets[0], ast.Name):
@@ -247,12 +271,16 @@ def x_manifest(report):
         raise Unrecognised("load_from_csv", f"introws/boolrows changed: {introws} {boolrows}")
     if not set(introws + boolrows) <= set(required):
         raise Unrecognised("load_from_csv", "a converted column is not a required key")
-    report["outputs"]["c20_manifest"] = {"prefix": prefix, "required": required, "introws": introws, "boolrows": boolrows}
+    report["outputs"]["c20_manifest"] = {"prefix": prefix, "required": required, "introws": introws, "boolrows": boolrows,
+                                         "literal_eval_classes_turned_into_ValueError": lit_caught}
     return (f"\n/-- manifest.py `load_from_csv`: the version header, required columns, converted columns -/\n"
             f"def c20ManifestPrefix : String := {_lean_str(prefix)}\n"
             f"def c20ManifestRequired : List String := {_lean_list(required)}\n"
             f"def c20ManifestIntCols : List String := {_lean_list(introws)}\n"
-            f"def c20ManifestBoolCol : String := {_lean_str(boolrows[0])}\n")
+            f"def c20ManifestBoolCol : String := {_lean_str(boolrows[0])}\n"
+            f"/-- classes raised by `ast.literal_eval` on the with_abundance cell that `load_from_csv` turns into ValueError "
+            f"(empty: the bare call of before the repair of C20.2) -/\n"
+            f"def c20ManifestLitCaught : List String := {_lean_list(lit_caught)}\n")
 
 
 # --------------------------------------------------------------------------------------------- picklist
@@ -301,14 +329,23 @@ def x_picklist(report):
     _has(ld, "if not (column_name in r.fieldnames or coltype in self.meta_coltypes): raise ValueError", "load")
     _has(ld, "col = self._get_value_for_csv_row(row) if not col: n_empty_val += 1 continue if col in pickset: dup_vals.add(col) else: self.add(col)", "load")
     dr = ast.unparse(_fn("src/sourmash/sourmash_args.py", "_DictReader_with_version", "__init__"))
-    _has(dr, "ch = textfp.buffer.peek(1) try: ch = ch.decode('utf-8') except UnicodeDecodeError: raise csv.Error", "_DictReader_with_version")
+    strict = "ch = textfp.buffer.peek(1) try: ch = ch.decode('utf-8') except UnicodeDecodeError: raise csv.Error"
+    incremental = "ch = textfp.buffer.peek(1) try: ch = codecs.getincrementaldecoder('utf-8')().decode(ch) except UnicodeDecodeError: raise csv.Error"
+    drn = re.sub(r"\s+", " ", dr)
+    peek_incremental = incremental in drn
+    if peek_incremental == (strict in drn):
+        raise Unrecognised("_DictReader_with_version", "the peeked chunk is decoded neither strictly (`ch.decode('utf-8')`) nor "
+                                                        "incrementally (`codecs.getincrementaldecoder('utf-8')().decode(ch)`)")
     _has(dr, "if ch.startswith('#'): line = textfp.readline() assert line.startswith('# '), line", "_DictReader_with_version")
-    report["outputs"]["c20_picklist"] = {"meta": meta, "supported": supported, "preprocess": table}
+    report["outputs"]["c20_picklist"] = {"meta": meta, "supported": supported, "preprocess": table, "peek_incremental": peek_incremental}
     return (f"\n/-- picklist.py: coltype tables, preprocess lambdas (shape names), columns of the meta-coltypes -/\n"
             f"def c20PickMeta : List String := {_lean_list(meta)}\n"
             f"def c20PickSupported : List String := {_lean_list(supported)}\n"
             f"def c20PickPreprocess : List (String × String) := [" + ", ".join(f"({_lean_str(k)}, {_lean_str(v)})" for k, v in table) + "]\n"
-            f"def c20PickMetaCols : List (String × String × String) := [" + ", ".join(f"({_lean_str(a)}, {_lean_str(b)}, {_lean_str(c)})" for a, b, c in metacols) + "]\n")
+            f"def c20PickMetaCols : List (String × String × String) := [" + ", ".join(f"({_lean_str(a)}, {_lean_str(b)}, {_lean_str(c)})" for a, b, c in metacols) + "]\n"
+            f"/-- `_DictReader_with_version`: is the peeked first chunk decoded incrementally (a multi-byte character cut by the "
+            f"buffer edge is fine) or strictly (before the repair of C20.4: such a file is refused with csv.Error)? -/\n"
+            f"def c20PeekIncremental : Bool := {'true' if peek_incremental else 'false'}\n")
 
 
 # --------------------------------------------------------------------------------------------- LCA
